@@ -113,6 +113,10 @@ Definition dec_instr (v : val) : option instr :=
       match dec_names own, dec_names ns, omap dec_vals data with
       | Some o, Some n, Some d => Some (ICreateRows (negb (Z.eqb (flavor mod 4) 2)) m o n d)
       | _, _, _ => None end
+  | VTup [VInt 18; ns; VList attrs; VList data] =>
+      match dec_names ns, omap dec_vals data with
+      | Some n, Some d => Some (ICreateStrict n (map (fun a => match a with VInt z => Z.odd z | _ => false end) attrs) d)
+      | _, _ => None end
   | _ => None
   end.
 
